@@ -1613,6 +1613,12 @@ class Interp:
             h = self.heap
             nr = h.rows_a2(v.field, v.owner.ref)
             i, j = idx
+            if is_arr(j) and concrete_int(self.arr_len(j)) == 1:
+                j = self.arr_get(j, 0)  # a one-element index array selects one column
+                if is_arr2(val) and concrete_int(self.arr2_dims(val)[1]) == 1:
+                    rd2 = self.arr2_reader(val)
+                    nrv = self.arr2_dims(val)[0]
+                    val = LArr(nrv, lambda r, rd2=rd2: rd2(r, 0))
             if isinstance(j, slice) or is_arr(j):
                 raise Unsupported("store to several columns")
             j = to_z3num(j)
